@@ -48,6 +48,36 @@ def is_library_parser(m, e):
     return canonical(m, e) == "html.parser.HTMLParser"
 
 
+SILENT_CALLBACKS = ("handle_comment", "handle_decl", "handle_pi", "unknown_decl", "handle_charref", "handle_entityref")
+
+
+def silent_overrides(m, cls):
+    """Callbacks for non-text constructs (comment, declaration, processing instruction, marked section, character reference) that
+    the class overrides with one text parameter: each gets a CONTRACT "stores nothing" (contracts/C17.py), so overriding them is
+    fine exactly when that contract is discharged."""
+    out = []
+    for name in SILENT_CALLBACKS:
+        fn = m.functions.get(f"{cls}.{name}")
+        if fn is not None and len(fn.args.args) == 2 and not fn.args.vararg and not fn.args.kwarg and not fn.args.kwonlyargs:
+            out.append((name, fn.args.args[1].arg))
+    return out
+
+
+def default_startendtag(m, cls):
+    """handle_startendtag spelled out exactly as the base class has it (start then end on the same tag)."""
+    fn = m.functions.get(f"{cls}.handle_startendtag")
+    if fn is None or len(fn.args.args) != 3:
+        return False
+    a = [x.arg for x in fn.args.args]
+    body = [st for st in fn.body if not (isinstance(st, ast.Expr) and isinstance(st.value, ast.Constant))]
+    want = [f"{a[0]}.handle_starttag({a[1]}, {a[2]})", f"{a[0]}.handle_endtag({a[1]})"]
+    return [ast.unparse(st.value) if isinstance(st, ast.Expr) else "?" for st in body] == want
+
+
+def accepted_overrides(m, cls):
+    return {n for n, _p in silent_overrides(m, cls)} | ({"handle_startendtag"} if default_startendtag(m, cls) else set())
+
+
 def library_names():
     """Every attribute name html.parser.HTMLParser (class or instance) owns: a subclass that binds one of them changes the
     tokeniser the proof assumes.  Taken from the interpreter's own html.parser plus names newer CPython versions added."""
@@ -93,7 +123,8 @@ def tokeniser_configuration(repo, tier):
             obls.append(ground_obligation(oid, False, f"class {cls} missing", rel, definite=False))
             continue
         b = class_bindings(node)
-        shadow = sorted(f"{n} (line {ln})" for n, ln in b.items() if (n in lib or n == "?") and n not in CONTRACTED)
+        fine = CONTRACTED | accepted_overrides(m, cls)
+        shadow = sorted(f"{n} (line {ln})" for n, ln in b.items() if (n in lib or n == "?") and n not in fine)
         base_ok = len(node.bases) == 1 and is_library_parser(m, node.bases[0]) \
             and not node.keywords and not node.decorator_list
         # nothing at module level patches the library either (HTMLParser.X = ..., html.parser.X = ...)
@@ -244,6 +275,8 @@ def native_scope(repo, tier):
                 w = f.get("witness") or {}
                 if f.get("property") == "C17" and w.get("markup_builder"):
                     known.append(dict(w["markup_builder"], only=w.get("only")))      # replayed on its own by the known_findings hook
+                    for fam in w.get("families") or []:
+                        known.append({"fn": fam, "index": 0, "only": w.get("only")})
     except Exception:  # noqa
         pass
     req = {"property": "C17", "obligation": oid, "repo": repo, "known_docs": known}
